@@ -29,6 +29,7 @@ type funcNames struct {
 	Recv    string      `json:"recv,omitempty"`
 	Params  []string    `json:"params,omitempty"`
 	Results []string    `json:"results,omitempty"`
+	Outer   []string    `json:"outer,omitempty"` // for a function literal's contract: the enclosing function's parameters (captured)
 	LocalPos []int      `json:"-"` // declaration position of each local (current run only)
 	Callees [][2]string `json:"callees,omitempty"` // (callee text, type) of calls through an indexed function value, e.g. subs[i](...)
 	Locals  [][4]string `json:"locals,omitempty"` // (name, type, initial boolean literal if declared with one, role: "val:<loop>:<ranged expr>" / "idx:<loop>" for the value / index variable of a loop outside function literals) in source order
@@ -108,9 +109,11 @@ func namesOfDecl(p *packages.Package, d *ast.FuncDecl) funcNames {
 				ord++
 				if as, ok := st.Init.(*ast.AssignStmt); ok && as.Tok == token.DEFINE && len(as.Lhs) == 1 && len(as.Rhs) == 1 {
 					if id, ok := as.Lhs[0].(*ast.Ident); ok {
-						if lit, ok := as.Rhs[0].(*ast.BasicLit); ok && lit.Value == "0" {
-							if inc, ok := st.Post.(*ast.IncDecStmt); ok && inc.Tok == token.INC {
+						if inc, ok := st.Post.(*ast.IncDecStmt); ok && inc.Tok == token.INC {
+							if lit, ok := as.Rhs[0].(*ast.BasicLit); ok && lit.Value == "0" {
 								roles[p.TypesInfo.Defs[id]] = fmt.Sprintf("idx:%d", ord)
+							} else {
+								roles[p.TypesInfo.Defs[id]] = fmt.Sprintf("ctr:%d", ord) // counts from another start: the loop's variable, but not its iteration number
 							}
 						}
 					}
@@ -227,6 +230,24 @@ func (E *Engine) litForKey(p *packages.Package, key string) *ast.FuncLit {
 	return lit
 }
 
+// namesOfLit: the names a function literal's contract can refer to: its own parameters positionally, the enclosing
+// function's receiver and parameters (captured), and every local of the enclosing function.
+func (E *Engine) namesOfLit(p *packages.Package, key string) (funcNames, bool) {
+	lit := E.litForKey(p, key)
+	d := E.declForKey(p, key)
+	if lit == nil || d == nil {
+		return funcNames{}, false
+	}
+	outer := namesOfDecl(p, d)
+	fn := funcNames{Recv: outer.Recv, Params: fieldNames(lit.Type.Params), Results: fieldNames(lit.Type.Results), Outer: outer.Params, Locals: outer.Locals, LocalPos: outer.LocalPos, Callees: outer.Callees}
+	// the literal's own parameters are recorded as parameters, not as locals
+	isParam := map[string]bool{}
+	for _, x := range fn.Params {
+		isParam[x] = true
+	}
+	return fn, true
+}
+
 // declForKey finds the declaration a contract key refers to ("F", "T.M", "F$N" -> the enclosing F).
 func (E *Engine) declForKey(p *packages.Package, key string) *ast.FuncDecl {
 	if i := strings.Index(key, "$"); i >= 0 {
@@ -248,8 +269,8 @@ func (E *Engine) collectNames() map[string]funcNames {
 				continue
 			}
 			if strings.Contains(key, "$") {
-				if lit := E.litForKey(p, key); lit != nil {
-					out[strings.TrimPrefix(path, modulePath+"/")+"."+key] = funcNames{Params: fieldNames(lit.Type.Params), Results: fieldNames(lit.Type.Results)}
+				if fn, ok := E.namesOfLit(p, key); ok {
+					out[strings.TrimPrefix(path, modulePath+"/")+"."+key] = fn
 				}
 				continue
 			}
@@ -343,11 +364,11 @@ func renamesFor(rec, cur funcNames) map[string]string {
 	}
 	// the index variable of the same loop (by ordinal) first
 	for i, l := range rec.Locals {
-		if matchedOld[i] || !strings.HasPrefix(l[3], "idx:") {
+		if matchedOld[i] || !(strings.HasPrefix(l[3], "idx:") || strings.HasPrefix(l[3], "ctr:")) {
 			continue
 		}
 		for j, c := range cur.Locals {
-			if matchedNew[j] || c[3] != l[3] || c[1] != l[1] || recAll[c[0]] {
+			if matchedNew[j] || len(c[3]) < 4 || c[3][:3] == "val" || c[3][4:] != l[3][4:] || c[1] != l[1] || recAll[c[0]] {
 				continue
 			}
 			matchedOld[i], matchedNew[j] = true, true
@@ -652,31 +673,30 @@ func (E *Engine) repairNames(pkgPath string, pc *PkgContracts) {
 		if i := strings.Index(base, "$"); i >= 0 {
 			base = base[:i]
 		}
-		rec, ok := E.names[rel+"."+base]
-		if !ok || c.Assumed {
+		if c.Assumed {
 			continue
 		}
-		d := E.findDecl(p, base)
-		if d == nil {
-			continue
-		}
-		cur := namesOfDecl(p, d)
+		var rec, cur funcNames
 		if base != key {
-			// a function literal's contract: only the enclosing function's locals, receiver and parameters are in scope
-			rec.Results, cur.Results = nil, nil
+			r, ok := E.names[rel+"."+key]
+			cn, ok2 := E.namesOfLit(p, key)
+			if !ok || !ok2 {
+				continue
+			}
+			rec, cur = r, cn
+		} else {
+			r, ok := E.names[rel+"."+base]
+			d := E.findDecl(p, base)
+			if !ok || d == nil {
+				continue
+			}
+			rec, cur = r, namesOfDecl(p, d)
 		}
 		ren := renamesFor(rec, cur)
-		if base != key {
-			if lrec, ok := E.names[rel+"."+key]; ok {
-				if lit := E.litForKey(p, key); lit != nil {
-					lcur := fieldNames(lit.Type.Params)
-					if len(lcur) == len(lrec.Params) {
-						for i := range lcur {
-							if o, n := lrec.Params[i], lcur[i]; o != "" && o != "_" && n != "" && n != "_" && o != n {
-								ren[o] = n
-							}
-						}
-					}
+		if len(rec.Outer) == len(cur.Outer) {
+			for i := range rec.Outer {
+				if o, n := rec.Outer[i], cur.Outer[i]; o != "" && o != "_" && n != "" && n != "_" && o != n && ren[o] == "" {
+					ren[o] = n
 				}
 			}
 		}
